@@ -170,7 +170,7 @@ def run(ctx):
         for T in ([2, 4] if ctx.quick else [2, 3, 4, 8]):
             seed = ctx.rng.randrange(1 << 30)
             cmd = [ts, "stress", str(T), "40" if ctx.quick else "200", str(seed)]
-            rc, out = vlib.sh(cmd, env=env, timeout=600)
+            rc, out = vlib.sh(cmd, env=env, timeout=200)
             reps = conclib.tsan_reports(out)
             ctx.case(key="tsan-stress:%d:%d" % (T, seed), nontrivial=True, kind="tsan-stress:%d-threads" % T,
                      sample=dict(cmd=" ".join(cmd[1:]), reports=len(reps), rc=rc))
@@ -199,7 +199,7 @@ def run(ctx):
     for T in ([4] if ctx.quick else [2, 4, 8]):
         seed = ctx.rng.randrange(1 << 30)
         cmd = [h, "stress", str(T), "3000" if ctx.quick else "20000", str(seed)]
-        rc, out = vlib.sh(cmd, timeout=600)
+        rc, out = vlib.sh(cmd, timeout=150)
         okline = "stress ok" in out
         ctx.case(key="stress:%d:%d" % (T, seed), nontrivial=True, kind="native-stress:%d-threads" % T,
                  sample=dict(cmd=" ".join(cmd[1:]), rc=rc, out=out.strip()[-160:]))
@@ -246,10 +246,11 @@ def run(ctx):
             for T in ([4] if ctx.quick else [2, 4, 8]):
                 rounds = 2 if ctx.quick else 4
                 cmd = [h, "solve", str(T), str(rounds)] + paths
-                rc, out = vlib.sh(cmd, timeout=900)
+                rc, out = vlib.sh(cmd, timeout=180)      # a corrupted heap can also hang: a timeout (rc -9) counts as a crash
                 lines = [l.split() for l in out.split("\n") if l.startswith("inst ")]
                 crashed = rc != 0 or len(lines) != len(insts)
-                sig_pref = "pool-unsynchronised:" if (gname == "arith" and not locked) else "concurrent-solve:%s:" % gname
+                # every arithmetic instance touches the pool: FastRational(const char*) takes a cell for each parsed numeral
+                sig_pref = "pool-unsynchronised:" if (gname in ("arith", "liacuts") and not locked) else "concurrent-solve:%s:" % gname
                 if crashed:
                     for t, _ in insts:
                         ctx.case(key="%s:%d:%s" % (gname, T, t), nontrivial=True, kind="threads-%s:%d:crashed-run" % (gname, T))
@@ -293,7 +294,7 @@ def run(ctx):
             d, paths = conclib.write_instances("C24t" + gname, [t for t, _ in insts[:24]])
             try:
                 cmd = [hx, "solve", "4", "1"] + paths
-                rc, out = vlib.sh(cmd, env=env, timeout=1500)
+                rc, out = vlib.sh(cmd, env=env, timeout=400)
                 reps = conclib.tsan_reports(out)
                 seen = set()
                 pool_seen = any(rp["on_pool"] for rp in reps)
@@ -314,3 +315,4 @@ def run(ctx):
                          sample=dict(group=gname, reports=len(reps), distinct=sorted(seen), rc=rc))
             finally:
                 shutil.rmtree(d, ignore_errors=True)
+        _lap(ctx, "tsan-library")
